@@ -154,7 +154,13 @@ async def subscription_case(ctx, prefixes: tuple[str, str]) -> None:
     except Exception as exc:  # noqa: BLE001
         ctx.violation("disconnect-raises", f"{type(exc).__name__}", case)
     # every connect subscribes (a new broker session starts without subscriptions)
-    for session in (2, 3):
+    for session in (2, 3, 4):
+        if session == 4:
+            # the prefixes are public attributes: an application that re-points a transport between two sessions gets
+            # subscriptions and topics for the NEW prefixes
+            in_prefix, out_prefix = in_prefix + "/moved", "moved/" + out_prefix
+            transport.in_prefix, transport.out_prefix = in_prefix, out_prefix
+            transport.published.clear()
         transport.subscribed.clear()
         try:
             await transport.connect()
@@ -174,6 +180,12 @@ async def subscription_case(ctx, prefixes: tuple[str, str]) -> None:
                               f"connect #{session} on the same transport object subscribed only {transport.subscribed}: nothing "
                               f"matches {topic!r} (a new broker session has no subscriptions, the transport would be deaf)", case)
                 return
+        if session == 4:
+            ctx.clause("prefixes-changed-on-a-live-object")
+            await transport.write("5;1;1;1;2;moved\n")
+            if transport.published != [(f"{out_prefix}/5/1/1/1/2", "moved", 1)]:
+                ctx.violation("publish-arguments-differ", f"after out_prefix was set to {out_prefix!r} on the transport object a "
+                                                          f"write published {transport.published!r:.120}", case)
         await transport.disconnect()
 
 
@@ -666,6 +678,68 @@ def disconnect_during_publish_case(ctx, variant: str, acked: int) -> None:
                                                   f"published {log.get('again')!r:.120}", case)
 
 
+async def two_clients_case(ctx, n_clients: int) -> None:
+    """Several MQTTClient transports of one process on one broker (two gateways behind one Mosquitto): the real aiomqtt /
+    paho client against the in-process broker, which - like every conforming broker - drops an existing connection when
+    another one presents the same client id.  Every transport must receive its own messages and publish its own lines."""
+    from aiomysensors.transport.mqtt import MQTTClient
+
+    from ..minibroker import MiniBroker
+
+    case = {"kind": "two-clients", "clients": n_clients}
+    broker = MiniBroker()
+    await broker.start()
+    problems: list[tuple[str, str]] = []
+    transports = []
+    try:
+        for index in range(n_clients):
+            transport = MQTTClient("127.0.0.1", broker.port, in_prefix=f"gw{index}-out", out_prefix=f"gw{index}-in")
+            await asyncio.wait_for(transport.connect(), 20)
+            transports.append(transport)
+            await asyncio.sleep(0.05)
+        for round_ in range(2):
+            for index, transport in enumerate(transports):
+                await broker.publish(f"gw{index}-out/{index + 1}/0/1/0/2", f"r{round_}".encode())
+            for index, transport in enumerate(transports):
+                try:
+                    line = await asyncio.wait_for(transport.read(), 10)
+                except asyncio.TimeoutError:
+                    problems.append(("mqtt-deaf", f"transport #{index} of {n_clients} on one broker never received its message "
+                                                  f"(round {round_}; broker saw client-id takeovers: {len(broker.takeovers)})"))
+                    break
+                except Exception as exc:  # noqa: BLE001
+                    problems.append(("read-raises-without-broker-error", f"transport #{index} of {n_clients} on one broker: read "
+                                                                         f"raised {type(exc).__name__}: {exc!s:.80} (client-id "
+                                                                         f"takeovers at the broker: {len(broker.takeovers)})"))
+                    break
+                else:
+                    if line.rstrip("\n") != f"{index + 1};0;1;0;2;r{round_}":
+                        problems.append(("read-back-differs", f"transport #{index} read {line!r}"))
+                try:
+                    await asyncio.wait_for(transport.write(f"{index + 1};0;1;0;3;w{round_}\n"), 10)
+                except Exception as exc:  # noqa: BLE001
+                    problems.append(("write-raises", f"transport #{index}: write raised {type(exc).__name__}: {exc!s:.60}"))
+            if problems:
+                break
+        await asyncio.sleep(0.1)
+        for transport in transports:
+            try:
+                await asyncio.wait_for(transport.disconnect(), 10)
+            except Exception as exc:  # noqa: BLE001
+                if not problems:
+                    problems.append(("disconnect-raises", f"{type(exc).__name__}: {exc!s:.60}"))
+    finally:
+        await broker.stop()
+    ctx.case(("two-clients", n_clients), sample=case)
+    ctx.clause("several-transports-one-broker")
+    ctx.obs("broker-client-id-takeovers", len(broker.takeovers))
+    want = sorted((f"gw{i}-in/{i + 1}/0/1/0/3", f"w{r}".encode(), 0) for i in range(n_clients) for r in range(2))
+    if not problems and sorted(broker.published) != want:
+        problems.append(("publish-arguments-differ", f"broker received {sorted(broker.published)!r:.200}, expected {want!r:.200}"))
+    for key, what in problems[:2]:
+        ctx.violation(key, what, case)
+
+
 # ----------------------------------------------------------------------------- mini broker (thorough)
 async def broker_case(ctx, n_messages: int, seed: int) -> None:
     import random
@@ -741,6 +815,8 @@ def run_case(ctx, case: dict) -> None:
         client_script_case(ctx, script, tuple(case["prefixes"]))
     elif kind == "concurrent-publish":
         concurrent_publish_case(ctx, case)
+    elif kind == "two-clients":
+        arun(two_clients_case(ctx, case["clients"]))
     elif kind == "disconnect-during-publish":
         disconnect_during_publish_case(ctx, case["variant"], case["acked"])
     elif kind == "client-burst":
@@ -862,6 +938,13 @@ def run(ctx) -> None:
                 head = gens.random_wellformed(rng)
                 lines.append(";".join(str(x) for x in head) + ";" + rng.choice(["", "0", "5", "a;b", "x/y", "日本", "v v"]) + "\n")
             client_publish_case(ctx, rng.choice(PREFIXES), lines)
+        if ctx.shard_index == (2 % ctx.shard_count):
+            try:
+                arun(two_clients_case(ctx, 2))
+                if not ctx.quick:
+                    arun(two_clients_case(ctx, 4))
+            except OSError as err:
+                ctx.skip("minibroker", f"cannot bind loopback: {err}")
         if not ctx.quick:
             try:
                 for i in range(2):
